@@ -86,6 +86,12 @@ def assemble_crate(cfg_features):
         add_canaries({relpath: fc})
 
     asm = assemble.build(os.path.join(REPO, 'src'), apply, spec)
+    # proof fns of the specification files are obligations of the property whose argument they carry
+    spec_tags = {'unarmor.rs': ['C03'], 'sentence.rs': [], 'prelude.rs': []}
+    for fn_ in sorted(os.listdir(os.path.join(ROOT, 'spec'))):
+        if fn_.endswith('.rs') and spec_tags.get(fn_):
+            for m in re.finditer(r'^pub proof fn (\w+)', open(os.path.join(ROOT, 'spec', fn_)).read(), re.M):
+                asm.lemmas.append(dict(relpath='<wrap>', name=m.group(1), tags=spec_tags[fn_]))
     asm.canaries = ['vcanary_axioms'] + [n for fc in files.values() for n in fc.canaries]
     return asm
 
